@@ -685,9 +685,12 @@ func (v *V) sortKeysShallow() *V {
 
 func genC13(r *R, n int, tier string, out *Out) {
 	o := &TreeOpts{Depth: 5, Width: 4, Floats: (*R).anyFloat, Str: (*R).str, Key: (*R).key, Stress: true}
+	big := r.bigTrees(&TreeOpts{Depth: 2, Width: 3, Floats: (*R).finiteFloat, Str: (*R).str, Key: (*R).key})
 	for i := 0; i < n; i++ {
 		var t *V
-		if r.chance(0.5) {
+		if i < len(big) {
+			t = big[i]
+		} else if r.chance(0.5) {
 			t = r.listTree(o)
 		} else {
 			t = r.objTree(o)
